@@ -228,7 +228,7 @@ func (c *VC) ghostBuiltin(st *State, name string, call *ast.CallExpr) []*Term {
 			return []*Term{mkForall([]*Term{j}, mkImplies(rng, body), mkSelect(row, j))}
 		}
 		return []*Term{mkExists([]*Term{j}, mkAnd(rng, body))}
-	case "modifiesTail", "modifiesElems", "modifiesPtr", "modifiesAll":
+	case "modifiesTail", "modifiesElems", "modifiesPtr", "modifiesAll", "modifiesMap":
 		if run == nil || run.phase != 1 {
 			return nil
 		}
@@ -240,10 +240,16 @@ func (c *VC) ghostBuiltin(st *State, name string, call *ast.CallExpr) []*Term {
 		v := c.eval(st, call.Args[0])
 		t := c.typeOf(call.Args[0])
 		switch u := t.Underlying().(type) {
+		case *types.Map:
+			if mt, ok := c.mapModelled(t); ok {
+				run.mods = append(run.mods, modSpec{kind: "map", v: v, elemS: c.sortOf(mt.Key()), valS: c.sortOf(mt.Elem())})
+			} else {
+				run.mods = append(run.mods, modSpec{kind: "all"})
+			}
 		case *types.Slice:
 			run.mods = append(run.mods, modSpec{kind: strings.ToLower(strings.TrimPrefix(name, "modifies")), v: v, elemS: c.sortOf(u.Elem())})
 		case *types.Pointer:
-			run.mods = append(run.mods, modSpec{kind: "ptr", v: v, elemS: c.sortOf(u.Elem())})
+			run.mods = append(run.mods, modSpec{kind: "ptr", v: v, elemS: c.sortOf(u.Elem()), typ: u.Elem()})
 		default:
 			c.unsupportedf(call.Pos(), "%s on %s", name, t)
 		}
@@ -327,10 +333,17 @@ func (c *VC) frameFormula(hn string, h0, h1, alloc0 *Term, mods []modSpec) *Term
 	}
 	var ptrs []*Term
 	for _, m := range mods {
-		if m.kind != "ptr" || c.ptrHeapName(m.elemS) != hn {
+		if strings.HasPrefix(hn, "HM") {
+			if m.kind == "map" {
+				ptrs = append(ptrs, mkEq(a, m.v))
+			}
 			continue
 		}
-		ptrs = append(ptrs, mkEq(a, m.v))
+		if m.kind != "ptr" {
+			continue
+		}
+		// the cells of *m.v: [m.v, m.v + sizeof)
+		ptrs = append(ptrs, mkAnd(mk("<=", sortBool, m.v, a), mk("<", sortBool, a, addrAdd(m.v, c.sizeof(m.typ)))))
 	}
 	lhs := mkSelect(h1, a)
 	body := mkImplies(mkAnd(inAlloc, mkNot(mkOr(ptrs...))), mkEq(lhs, mkSelect(h0, a)))
@@ -351,9 +364,16 @@ func (c *VC) modHeapNames(mods []modSpec) map[string]bool {
 	for _, m := range mods {
 		switch m.kind {
 		case "ptr":
-			r[c.ptrHeapName(m.elemS)] = true
+			hs := map[string]*Sort{}
+			c.leafHeaps(m.typ, hs, 0)
+			for hn := range hs {
+				r[hn] = true
+			}
 		case "tail", "elems":
 			r[c.sliceHeapName(m.elemS)] = true
+		case "map":
+			r["HMd_"+sanitize(m.elemS.Name)] = true
+			r["HMv_"+sanitize(m.elemS.Name)+"_"+sanitize(m.valS.Name)] = true
 		}
 	}
 	return r
@@ -401,7 +421,17 @@ func (c *VC) callByContract(st *State, fi *FuncInfo, args []*Term, call *ast.Cal
 		c.checkCalleeMods(st, run.mods, call.Pos(), ctext)
 		for hn := range c.modHeapNames(run.mods) {
 			var h0 *Term
-			if strings.HasPrefix(hn, "HS_") {
+			if strings.HasPrefix(hn, "HM") {
+				for _, m := range run.mods {
+					if m.kind == "map" {
+						if strings.HasPrefix(hn, "HMd_") {
+							h0 = c.heapOr(st, hn, arraySort(sortInt, arraySort(m.elemS, sortBool)))
+						} else {
+							h0 = c.heapOr(st, hn, arraySort(sortInt, arraySort(m.elemS, m.valS)))
+						}
+					}
+				}
+			} else if strings.HasPrefix(hn, "HS_") {
 				for _, m := range run.mods {
 					if m.kind != "ptr" && c.sliceHeapName(m.elemS) == hn {
 						_, h0 = c.sliceHeap(st, m.elemS)
@@ -409,8 +439,12 @@ func (c *VC) callByContract(st *State, fi *FuncInfo, args []*Term, call *ast.Cal
 				}
 			} else {
 				for _, m := range run.mods {
-					if m.kind == "ptr" && c.ptrHeapName(m.elemS) == hn {
-						_, h0 = c.ptrHeap(st, m.elemS)
+					if m.kind == "ptr" {
+						hs := map[string]*Sort{}
+						c.leafHeaps(m.typ, hs, 0)
+						if srt, ok := hs[hn]; ok {
+							_, h0 = c.ptrHeap(st, srt)
+						}
 					}
 				}
 			}
@@ -500,6 +534,22 @@ func (c *VC) verify() {
 		c.inputs = append(c.inputs, inputVar{nm, v, p.Type()})
 		c.facts = append(c.facts, c.wfAt(st, v, p.Type()))
 		entry = append(entry, v)
+	}
+	// distinct objects of one type never overlap partially: same address or disjoint extents
+	for i := range c.inputs {
+		pi, ok1 := c.inputs[i].Type.Underlying().(*types.Pointer)
+		if !ok1 {
+			continue
+		}
+		for j := i + 1; j < len(c.inputs); j++ {
+			pj, ok2 := c.inputs[j].Type.Underlying().(*types.Pointer)
+			if !ok2 || !types.Identical(pi.Elem(), pj.Elem()) {
+				continue
+			}
+			a, b := c.inputs[i].Term, c.inputs[j].Term
+			sz := c.sizeof(pi.Elem())
+			c.facts = append(c.facts, mkOr(mkEq(a, b), mk("<=", sortBool, addrAdd(a, sz), b), mk("<=", sortBool, addrAdd(b, sz), a)))
+		}
 	}
 	// requires
 	if K != nil {
@@ -625,11 +675,19 @@ func (c *VC) checkWrite(st *State, hn string, base, lo, hi *Term, pos token.Pos,
 		}
 		in := mkAnd(c.cmp(token.LEQ, lo, i, it), c.cmp(token.LSS, i, hi, it))
 		goal = mkOr(freshLoc, mkForall([]*Term{i}, mkImplies(in, mkOr(regs...))))
+	} else if strings.HasPrefix(hn, "HM") {
+		var hs []*Term
+		for _, m := range c.mods {
+			if m.kind == "map" {
+				hs = append(hs, mkEq(base, m.v))
+			}
+		}
+		goal = mkOr(freshLoc, mkOr(hs...))
 	} else {
 		var ptrs []*Term
 		for _, m := range c.mods {
-			if m.kind == "ptr" && c.ptrHeapName(m.elemS) == hn {
-				ptrs = append(ptrs, mkEq(base, m.v))
+			if m.kind == "ptr" {
+				ptrs = append(ptrs, mkAnd(mk("<=", sortBool, m.v, base), mk("<", sortBool, base, addrAdd(m.v, c.sizeof(m.typ)))))
 			}
 		}
 		goal = mkOr(freshLoc, mkOr(ptrs...))
@@ -653,8 +711,13 @@ func (c *VC) checkCalleeMods(st *State, mods []modSpec, pos token.Pos, text stri
 	it := types.Typ[types.Int]
 	for _, m := range mods {
 		switch m.kind {
+		case "map":
+			c.checkWrite(st, "HMd_"+sanitize(m.elemS.Name), m.v, nil, nil, pos, text)
 		case "ptr":
 			c.checkWrite(st, c.ptrHeapName(m.elemS), m.v, nil, nil, pos, text)
+			if sz := c.sizeof(m.typ); sz > 1 {
+				c.checkWrite(st, c.ptrHeapName(m.elemS), addrAdd(m.v, sz-1), nil, nil, pos, text)
+			}
 		case "tail", "elems":
 			off, ln, cp := mkField(m.v, "sl_off"), mkField(m.v, "sl_len"), mkField(m.v, "sl_cap")
 			lo, hi := off, c.binop(token.ADD, off, ln, it)
